@@ -218,9 +218,10 @@ func (encryptor *QueryDataEncryptor) encryptUpdateQuery(ctx context.Context, upd
 func (encryptor *QueryDataEncryptor) OnColumn(ctx context.Context, data []byte) (context.Context, []byte, error) {
 	columnInfo, ok := decryptor.ColumnInfoFromContext(ctx)
 	if ok {
+		querySelectSettings := encryptor.currentSelectSettings(ctx)
 		// return context with encryption setting
-		if columnInfo.Index() < len(encryptor.querySelectSettings) {
-			selectSetting := encryptor.querySelectSettings[columnInfo.Index()]
+		if columnInfo.Index() < len(querySelectSettings) {
+			selectSetting := querySelectSettings[columnInfo.Index()]
 			if selectSetting != nil {
 
 				logging.GetLoggerFromContext(ctx).WithField("column_index", columnInfo.Index()).WithField("column", selectSetting.ColumnName()).Debugln("Set encryption setting")
@@ -230,6 +231,18 @@ func (encryptor *QueryDataEncryptor) OnColumn(ctx context.Context, data []byte) 
 
 	}
 	return ctx, data, nil
+}
+
+// currentSelectSettings returns the column settings of the statement whose result is being processed: the ones kept
+// in the client session (left there by the last query, or by the proxy for the prepared statement that is executed),
+// otherwise the ones of the last query seen by this observer
+func (encryptor *QueryDataEncryptor) currentSelectSettings(ctx context.Context) []*base.QueryDataItem {
+	if clientSession := decryptor.ClientSessionFromContext(ctx); clientSession != nil {
+		if items := base.QueryDataItemsFromClientSession(clientSession); items != nil {
+			return items
+		}
+	}
+	return encryptor.querySelectSettings
 }
 
 const allColumnsName = "*"
@@ -356,6 +369,9 @@ func (encryptor *QueryDataEncryptor) onReturning(ctx context.Context, returning 
 // OnQuery raw data in query according to TableSchemaStore
 func (encryptor *QueryDataEncryptor) OnQuery(ctx context.Context, query OnQueryObject) (OnQueryObject, bool, error) {
 	encryptor.querySelectSettings = nil
+	if clientSession := decryptor.ClientSessionFromContext(ctx); clientSession != nil {
+		base.SaveQueryDataItemsToClientSession(clientSession, nil)
+	}
 	statement, err := query.Statement()
 	if err != nil {
 		return query, false, err
